@@ -29,6 +29,9 @@ type cfg struct {
 	scheds []raterun.Schedule
 	fnDur  time.Duration
 	script []step
+	// only the first invocation takes fnDur, the later ones take no time (a slow first report, then
+	// prompt ones: whatever ticks went by meanwhile are gone, the function is not invoked for them)
+	firstSlow bool
 }
 
 func (c cfg) name() string {
@@ -40,16 +43,22 @@ func (c cfg) name() string {
 	for _, s := range c.script {
 		st = append(st, s.String())
 	}
-	return fmt.Sprintf("runner/scheds=[%s]/fn=%s/script=%s", strings.Join(ss, " "), c.fnDur, strings.Join(st, ","))
+	fn := c.fnDur.String()
+	if c.firstSlow {
+		fn = "first-" + fn + "-then-0s"
+	}
+	return fmt.Sprintf("runner/scheds=[%s]/fn=%s/script=%s", strings.Join(ss, " "), fn, strings.Join(st, ","))
 }
 
 // event log entries: "begin <freq ns> <clock>", "end <clock>", "start <clock>", "restart <clock>", "stopret <clock>", "cancel <clock>"
 
 func scenario(c cfg) vrt.Scenario {
 	body := func() {
+		calls := 0
 		fn := func(freq time.Duration) {
 			vrt.Log(fmt.Sprintf("begin %d %d", int64(freq), vrt.Clock()))
-			if c.fnDur > 0 {
+			calls++
+			if c.fnDur > 0 && (!c.firstSlow || calls == 1) {
 				vtime.Sleep(c.fnDur)
 			}
 			vrt.Log(fmt.Sprintf("end %d", vrt.Clock()))
@@ -161,6 +170,14 @@ func oracle(c cfg, o *vrt.Outcome) {
 		}
 		return false
 	}
+	hasRestart := false
+	for _, st := range c.script {
+		if st.op == "restart" {
+			hasRestart = true
+		}
+	}
+	var prevFirst int64 = -1 // begin of the previous invocation served from the first schedule (scripts without Restart)
+	var begins [][2]int64    // (frequency, instant) of every invocation
 	open := 0
 	started, stopped, cancelled := false, false, false
 	var stopClock int64
@@ -182,6 +199,22 @@ func oracle(c cfg, o *vrt.Outcome) {
 			newGen(a, false)
 		case "begin":
 			freq, t := a, b
+			begins = append(begins, [2]int64{freq, t})
+			// Every invocation consumes a tick of its own, and the ticker keeps at most one tick that nobody has
+			// taken yet: on the default schedule (the runner takes a tick and invokes at the same instant) a tick
+			// instant of the schedule lies between the beginnings of two consecutive invocations. The first
+			// schedule's tick instants are known exactly when nothing restarts it.
+			if o.Cost == 0 && !hasRestart && len(gens) == 1 && freq == int64(c.scheds[0].Frequency) && (len(c.scheds) == 1 || t < gens[0].act[1]) {
+				act := gens[0].act[0]
+				if prevFirst >= 0 {
+					lo := (prevFirst - act + freq - 1) / freq // first tick index at or after the previous beginning
+					hi := (t - act) / freq                    // last tick index at or before this one
+					if hi < lo || hi < 1 {
+						o.Fail("C18/rate", "no-tick-between-invocations", fmt.Sprintf("invocations began at %dns and %dns; the schedule's ticks are at %dns + k x %dns and none lies between them: the function ran more than once for one tick", prevFirst, t, act, freq))
+					}
+				}
+				prevFirst = t
+			}
 			if !started {
 				o.Fail("C18/before-start", "invoked", "function invoked before Start")
 			}
@@ -236,6 +269,7 @@ func oracle(c cfg, o *vrt.Outcome) {
 		}
 	}
 	_ = cancelled
+	exact(c, o, begins)
 	for _, l := range o.Leaks {
 		o.Fail("C18/goroutine-left", strings.SplitN(l, ":", 2)[1], "thread still alive after Stop/cancel and the observation window: "+l)
 		break
@@ -245,6 +279,77 @@ func oracle(c cfg, o *vrt.Outcome) {
 			o.Fail("C18/timer-left", tm, "runner timer still armed after Stop/cancel: "+strings.Join(o.Timers, ","))
 			break
 		}
+	}
+}
+
+// exact: on the default schedule and with a function that takes no time the runner is deterministic, and the
+// invocations are exactly the ticks of whichever schedule is active: schedule i of a generation is active from its
+// activation (New + start delays for the first generation; the Restart itself, without the first start delay, for
+// a later one) until the next schedule's activation, a Restart, Stop or cancel. Skipped when a tick coincides with
+// one of those instants (either order is legitimate).
+func exact(c cfg, o *vrt.Outcome, begins [][2]int64) {
+	if o.Cost != 0 || c.fnDur != 0 || o.Status != vrt.StOK {
+		return
+	}
+	type mark struct {
+		kind string
+		at   int64
+	}
+	var marks []mark
+	for _, ev := range o.Log {
+		f := strings.Fields(ev)
+		var a int64
+		if len(f) > 1 {
+			fmt.Sscan(f[1], &a)
+		}
+		switch f[0] {
+		case "new", "restart", "stopret", "cancel", "observed":
+			marks = append(marks, mark{f[0], a})
+		}
+	}
+	var want [][2]int64
+	tie := false
+	for mi, m := range marks {
+		if m.kind != "new" && m.kind != "restart" {
+			if m.kind != "observed" {
+				break // Stop / cancel: nothing afterwards
+			}
+			continue
+		}
+		end := marks[mi+1].at // the next mark ends this generation (Restart, Stop, cancel or the end of the observation)
+		at := m.at
+		for i, sc := range c.scheds {
+			if i > 0 || m.kind == "new" {
+				at += int64(sc.StartDelay)
+			}
+			until := end
+			if i+1 < len(c.scheds) && at+int64(c.scheds[i+1].StartDelay) < until {
+				until = at + int64(c.scheds[i+1].StartDelay)
+			}
+			for t := at + int64(sc.Frequency); t <= until; t += int64(sc.Frequency) {
+				if t == until {
+					tie = true
+					break
+				}
+				want = append(want, [2]int64{int64(sc.Frequency), t})
+			}
+			if at >= end {
+				if at == end {
+					tie = true
+				}
+				break
+			}
+		}
+	}
+	if tie {
+		return
+	}
+	same := len(want) == len(begins)
+	for i := 0; same && i < len(want); i++ {
+		same = want[i] == begins[i]
+	}
+	if !same {
+		o.Fail("C18/rate", "not-the-active-schedule's-ticks", fmt.Sprintf("prompt runner, instant function: invocations (frequency ns, instant ns) %v, the active schedules' ticks are %v", begins, want))
 	}
 }
 
@@ -272,7 +377,12 @@ func scenariosFor(tier string) []vrt.Scenario {
 	stop, cancel, restart := step{op: "stop"}, step{op: "cancel"}, step{op: "restart"}
 	var out []vrt.Scenario
 	add := func(b int, sc []raterun.Schedule, fn time.Duration, script ...step) {
-		s := scenario(cfg{sc, fn, script})
+		s := scenario(cfg{scheds: sc, fnDur: fn, script: script})
+		s.Bound = b
+		out = append(out, s)
+	}
+	addFirstSlow := func(b int, sc []raterun.Schedule, fn time.Duration, script ...step) {
+		s := scenario(cfg{scheds: sc, fnDur: fn, script: script, firstSlow: true})
 		s.Bound = b
 		out = append(out, s)
 	}
@@ -303,8 +413,15 @@ func scenariosFor(tier string) []vrt.Scenario {
 		add(b, s1, ms(120), sl(110), step{op: "stop-in-thread"}, sl(50), stop) // two Stop calls while an invocation is in flight
 		add(b, s1, ms(120), sl(110), restart, restart, restart, stop)          // Restarts pile up while the function executes
 		add(b, s6, ms(30), sl(300), restart, sl(600), stop)
-		out = append(out, scenario(cfg{s2, ms(30), []step{sl(150), restart, sl(300), stop}}).WithPlainPoints(1))
-		out = append(out, scenario(cfg{s1, ms(30), []step{sl(110), stop}}).WithPlainPoints(1))
+		// a Restart with a first schedule that starts late: the first schedule is active again at once
+		add(b, s6, 0, sl(330), restart, sl(630), stop)
+		add(b, s5, 0, sl(420), restart, sl(230), stop)
+		// one slow invocation (more than two periods), then prompt ones: one invocation per tick, no catching up
+		s7 := []raterun.Schedule{{StartDelay: 0, Frequency: ms(50)}}
+		addFirstSlow(b, s7, ms(158), sl(420), stop)
+		addFirstSlow(b, s7, ms(158), sl(230), cancel)
+		out = append(out, scenario(cfg{scheds: s2, fnDur: ms(30), script: []step{sl(150), restart, sl(300), stop}}).WithPlainPoints(1))
+		out = append(out, scenario(cfg{scheds: s1, fnDur: ms(30), script: []step{sl(110), stop}}).WithPlainPoints(1))
 		return out
 	}
 	for _, fn := range []time.Duration{0, ms(30), ms(120)} {
@@ -322,15 +439,24 @@ func scenariosFor(tier string) []vrt.Scenario {
 	}
 	add(2, s3, 0, sl(1300), stop)
 	add(2, s3, ms(30), sl(1001), restart, sl(90), stop)
+	s7 := []raterun.Schedule{{StartDelay: 0, Frequency: ms(50)}}
+	for _, d := range []int{108, 158, 260} {
+		addFirstSlow(2, s7, ms(d), sl(420), stop)
+		addFirstSlow(2, s7, ms(d), sl(230), cancel)
+		addFirstSlow(2, s2, ms(d), sl(700), stop)
+	}
+	add(2, s6, 0, sl(330), restart, sl(630), stop)
+	add(2, s5, 0, sl(420), restart, sl(230), stop)
+	add(2, s6, 0, sl(130), restart, sl(630), stop) // Restart during the first start delay
 	for _, fn := range []time.Duration{0, ms(30)} {
 		add(2, s5, fn, sl(520), stop)
 		add(2, s5, fn, sl(200), restart, sl(400), stop)
 		add(2, s6, fn, sl(300), restart, sl(600), stop)
 		add(2, s6, fn, sl(700), cancel, stop)
 	}
-	out = append(out, scenario(cfg{s2, ms(30), []step{sl(150), restart, sl(300), stop}}).WithPlainPoints(2))
-	out = append(out, scenario(cfg{s1, ms(30), []step{sl(110), stop}}).WithPlainPoints(2))
-	out = append(out, scenario(cfg{s2, 0, []step{sl(260), cancel, stop}}).WithPlainPoints(2))
+	out = append(out, scenario(cfg{scheds: s2, fnDur: ms(30), script: []step{sl(150), restart, sl(300), stop}}).WithPlainPoints(2))
+	out = append(out, scenario(cfg{scheds: s1, fnDur: ms(30), script: []step{sl(110), stop}}).WithPlainPoints(2))
+	out = append(out, scenario(cfg{scheds: s2, fnDur: 0, script: []step{sl(260), cancel, stop}}).WithPlainPoints(2))
 	for _, fn := range []time.Duration{ms(30), ms(120)} {
 		for _, d := range []int{300, 310, 329, 330, 400} {
 			add(2, s2, fn, sl(d), restart, sl(900), stop) // Restart around an in-flight invocation of the later schedule
